@@ -61,6 +61,10 @@ type Subscription struct {
 	// is mutated by calls to Next.
 	currentItem *bufferItem
 
+	// snapshotIndex is the index of the snapshot delivered on this subscription,
+	// or zero if none was (yet). It is only accessed by Next.
+	snapshotIndex uint64
+
 	// closed is a channel which is closed when the subscription is closed. It
 	// is used to exit the blocking select.
 	closed chan struct{}
@@ -131,8 +135,36 @@ func (s *Subscription) Next(ctx context.Context) (Event, error) {
 		if len(next.Events) == 0 {
 			continue
 		}
+		if s.alreadyInSnapshot(next.Events) {
+			continue
+		}
 		return newEventFromBatch(s.req, next.Events), nil
 	}
+}
+
+// alreadyInSnapshot reports whether a batch from the topic buffer is already
+// reflected in the snapshot this subscription delivered. Events are handed to
+// the publisher after their transaction commits and are appended to the topic
+// buffers asynchronously, so a snapshot may be taken from state that includes
+// transactions whose events reach the topic buffer only later. Delivering them
+// after the snapshot would move the subscriber's index backwards and replay
+// changes on top of state that already contains them (or has since dropped
+// them). The snapshot index never exceeds the index of the last transaction
+// visible to the snapshot, so everything at or below it can be skipped.
+func (s *Subscription) alreadyInSnapshot(events []Event) bool {
+	first := events[0]
+	if first.IsEndOfSnapshot() {
+		s.snapshotIndex = first.Index
+		return false
+	}
+	if first.IsFramingEvent() {
+		return false
+	}
+	// Events that carry no index cannot be ordered against the snapshot.
+	if first.Index == 0 {
+		return false
+	}
+	return s.snapshotIndex != 0 && first.Index <= s.snapshotIndex
 }
 
 func (s *Subscription) requireStateOpen() error {
